@@ -92,6 +92,13 @@ impl Model {
                     let v = &self.vars[*vid];
                     if v.set_round <= round && Some(v.set_round) > n.last_run {
                         viol!(self, at, "C08", "write-not-propagated", "variable {} was written before this stabilise but its node was not recomputed", vid);
+                        let passes = match n.value {
+                            Some(old) => !n.cutoff.cuts(old, v.value),
+                            None => true,
+                        };
+                        if passes {
+                            viol!(self, at, "C06", "change-lost", "variable {} holds a new value that its cutoff does not suppress, but the change was not propagated in this stabilise", vid);
+                        }
                     }
                 }
                 RK::Bind { lhs, .. } => {
